@@ -338,15 +338,18 @@ Fixpoint list_plugins (namef : bytes -> bytes) (repo : bytes) (ps : list (bytes 
       Ok (mkMD (namef dir) repo (sort_desc vs) :: rest)))
   end.
 
-Fixpoint listed_with (namef : bytes -> bytes) (t : tree) : outcome (list plugin_md) :=
+(* [skip]: the directory Install stages a version in (".staging", after the staged-install fix) is not a repository *)
+Definition staging_name : bytes := [46;115;116;97;103;105;110;103].
+Fixpoint listed_with (namef : bytes -> bytes) (skip : bytes -> bool) (t : tree) : outcome (list plugin_md) :=
   match t with
   | [] => Ok []
   | (repo, ps) :: rest =>
+      if skip repo then listed_with namef skip rest else
       obind (list_plugins namef repo ps) (fun cur =>
-      obind (listed_with namef rest) (fun more => Ok (cur ++ more)))
+      obind (listed_with namef skip rest) (fun more => Ok (cur ++ more)))
   end.
-Definition listed := listed_with plugin_name.
-Definition listed_pinned := listed_with plugin_name_pinned.
+Definition listed := listed_with plugin_name (bytes_eqb staging_name).
+Definition listed_pinned := listed_with plugin_name_pinned (fun _ => false).
 
 (* the tree a set of installations leaves: repository -> (plugin name -> version directory names) *)
 Definition dir_of (name : bytes) : bytes := plugin_prefix ++ name.
@@ -356,6 +359,7 @@ Definition dir_tree (it : tree) : tree :=
 (* the installations in listing order, and "every version directory name parses" *)
 Definition flat (it : tree) : list (bytes * bytes * list bytes) :=
   concat (map (fun '(repo, ps) => map (fun '(name, vs) => (repo, name, vs)) ps) it).
+Definition no_staging (it : tree) : bool := forallb (fun '(repo, _) => negb (bytes_eqb staging_name repo)) it.
 Definition tree_parses (it : tree) : bool :=
   forallb (fun '(_, ps) => forallb (fun '(_, vs) => is_ok (parse_versions vs)) ps) it.
 Definition parsed_or_nil (names : list bytes) : list version :=
